@@ -1,0 +1,6 @@
+//go:build !verif
+
+package mqtt
+
+// VerifHookPoint is a no-op outside of verification builds (tag verif).
+func verifHookPoint(string) {}
